@@ -30,6 +30,14 @@ func qualifyKey(key, pkgPath string) string {
 	if pkgPath == "" {
 		return key
 	}
+	// already qualified: (*pkg.T).M, (pkg.T).M or pkg.F
+	if strings.HasPrefix(key, "(") {
+		if i := strings.Index(key, ")"); i > 0 && strings.Contains(key[:i], ".") {
+			return key
+		}
+	} else if strings.Contains(strings.SplitN(key, "$", 2)[0], ".") {
+		return key
+	}
 	if strings.HasPrefix(key, "(*") {
 		return "(*" + pkgPath + "." + key[2:]
 	}
@@ -324,10 +332,11 @@ func (f *FnEnc) call(c *ssa.CallCommon, v ssa.Value, pos token.Pos) Val {
 		f.safety("nil", tNot(tEq(recv, tInt(0))), pos, "")
 		args := append([]Val{recv}, f.argVals(c)...)
 		if spec := e.R.forMethod(c.Method); spec != nil {
-			return f.applyContract(spec, c.Method.Type().(*types.Signature), c.Method.FullName(), args, true, hint, pos)
+			return f.applyContract(spec, c.Method.Type().(*types.Signature), c.Method.FullName(), args, append([]ssa.Value{c.Value}, c.Args...), true, hint, pos)
 		}
 		e.abstracted[fnDisplayName(f.fn)+": dynamic call "+c.Method.FullName()+" havocs the heap"] = true
 		f.checkEscapes(args, c.Method.FullName())
+		f.fieldPtrArgs(args, sig, c.Method.FullName())
 		f.st = e.havocState(f.st, nil)
 		return f.resultVal(sig, hint)
 	}
@@ -346,6 +355,7 @@ func (f *FnEnc) call(c *ssa.CallCommon, v ssa.Value, pos token.Pos) Val {
 		e.abstracted[fnDisplayName(f.fn)+": call through function value havocs the heap"] = true
 		args := f.argVals(c)
 		f.checkEscapes(args, "function value")
+		f.fieldPtrArgs(args, sig, "function value")
 		f.st = e.havocState(f.st, nil)
 		return f.resultVal(sig, hint)
 	}
@@ -357,12 +367,13 @@ func (f *FnEnc) call(c *ssa.CallCommon, v ssa.Value, pos token.Pos) Val {
 	spec := e.R.forFunc(callee)
 	if spec != nil && !(spec.Inline && len(callee.Blocks) > 0) {
 		hasRecv := callee.Signature.Recv() != nil
-		return f.applyContract(spec, callee.Signature, name, args, hasRecv, hint, pos)
+		return f.applyContract(spec, callee.Signature, name, args, c.Args, hasRecv, hint, pos)
 	}
 	if inRepo(callee) && len(callee.Blocks) > 0 && f.canInline(callee) {
 		return f.inline(callee, spec, args, frees)
 	}
 	f.checkEscapes(args, name)
+	f.fieldPtrArgs(args, sig, name)
 	if inRepo(callee) || len(frees) > 0 {
 		e.abstracted[fnDisplayName(f.fn)+": call "+fnDisplayName(callee)+" (no contract, not inlined) havocs the heap"] = true
 		f.st = e.havocState(f.st, nil)
@@ -372,6 +383,9 @@ func (f *FnEnc) call(c *ssa.CallCommon, v ssa.Value, pos token.Pos) Val {
 	ws := writeSet{names: map[string]bool{}}
 	e.callWrites(c, &ws, 3, map[*ssa.Function]bool{})
 	e.abstracted[fnDisplayName(f.fn)+": external call "+name+" (no contract)"] = true
+	if f.fieldPtrArgs(args, sig, name) {
+		ws.all = true
+	}
 	if ws.all {
 		f.st = e.havocState(f.st, nil)
 	} else {
@@ -395,8 +409,6 @@ func (f *FnEnc) valOrNil(v ssa.Value) (r Val) {
 func (f *FnEnc) checkEscapes(args []Val, callee string) {
 	for _, a := range args {
 		switch av := a.(type) {
-		case FieldPtr:
-			f.e.unsup("address of scalar field passed to %s", callee)
 		case SliceV:
 			for _, vw := range f.arrViews {
 				if strings.Contains(av.Base.S, vw) {
@@ -405,6 +417,28 @@ func (f *FnEnc) checkEscapes(args []Val, callee string) {
 			}
 		}
 	}
+}
+
+// fieldPtrEscapes: the address of a scalar struct field is passed to a callee whose effects are
+// havocked. That is sound (the field's component is havocked too) unless the callee can hand the
+// pointer back as an ordinary *T, which our per-field heap could not alias.
+func (f *FnEnc) fieldPtrArgs(args []Val, sig *types.Signature, callee string) bool {
+	has := false
+	for _, a := range args {
+		fp, ok := a.(FieldPtr)
+		if !ok {
+			continue
+		}
+		has = true
+		ft := structOf(fp.S).Field(fp.Field).Type()
+		rs := sig.Results()
+		for i := 0; i < rs.Len(); i++ {
+			if p, ok := rs.At(i).Type().Underlying().(*types.Pointer); ok && types.Identical(p.Elem(), ft) {
+				f.e.unsup("address of scalar field passed to %s which returns a pointer of the same type", callee)
+			}
+		}
+	}
+	return has
 }
 
 func (f *FnEnc) canInline(callee *ssa.Function) bool {
@@ -522,7 +556,7 @@ func (f *FnEnc) pkgOf(spec *FuncSpec) *types.Package {
 	return nil
 }
 
-func (f *FnEnc) applyContract(spec *FuncSpec, sig *types.Signature, name string, args []Val, hasRecv bool, hint string, pos token.Pos) Val {
+func (f *FnEnc) applyContract(spec *FuncSpec, sig *types.Signature, name string, args []Val, srcs []ssa.Value, hasRecv bool, hint string, pos token.Pos) Val {
 	e := f.e
 	if spec.Trusted {
 		e.trustedUsed[name] = true
@@ -530,6 +564,16 @@ func (f *FnEnc) applyContract(spec *FuncSpec, sig *types.Signature, name string,
 	vars := bindParams(sig, args, hasRecv, spec.Params)
 	pre := f.st.clone()
 	ctx := &SpecCtx{e: e, f: f, vars: vars, st: pre, old: pre, pkg: f.pkgOf(spec)}
+	if len(srcs) == len(args) {
+		ctx.srcArgs = map[string]ssa.Value{}
+		var dummy []Val
+		for i := range srcs {
+			dummy = append(dummy, i)
+		}
+		for k, b := range bindParams(sig, dummy, hasRecv, spec.Params) {
+			ctx.srcArgs[k] = srcs[b.v.(int)]
+		}
+	}
 	short := strings.ReplaceAll(name, modPath+"/", "")
 	for i, c := range spec.Requires {
 		g := f.evalClauseSafe(ctx, c)
@@ -761,7 +805,7 @@ func (f *FnEnc) checkPost(results []Val, pos token.Pos) {
 	if res != nil {
 		bindResults(sig, res, vars)
 	}
-	ctx := &SpecCtx{e: e, f: f, vars: vars, st: f.st, old: f.entry, pkg: f.fn.Pkg.Pkg}
+	ctx := &SpecCtx{e: e, f: f, vars: vars, st: f.st, old: f.entry, pkg: f.fnPkg(), hdrBlock: f.blk, atReturn: true}
 	for i, c := range f.spec.Ensures {
 		g := f.evalClauseSafe(ctx, c)
 		f.addObl("post", clauseLabel(c, i)+"@ret"+fmt.Sprint(len(f.rets)), g, pos, c.Props, c.Src)
